@@ -982,8 +982,12 @@ impl<'a> VerifDriver for Sim<'a> {
         Ok(()) => {
           // the writer or the driver dealt with the failure itself (a retry): right if the device
           // got exactly the batch, once
-          match whole { Ok(_) => { self.stats.syswrite_retried_ok += 1; } Err(e) => { self.wire_note(format!("a write(2) on the virtual keyboard failed ({}), send reported success, but: {}", ["EAGAIN", "EIO", "ENOSPC", "EINTR"][kind], e)); } }
+          let mut hidden = false;
+          match whole { Ok(_) => { self.stats.syswrite_retried_ok += 1; } Err(e) => { hidden = true; self.wire_note(format!("a write(2) on the virtual keyboard failed ({}), send reported success, but: {}", ["EAGAIN", "EIO", "ENOSPC", "EINTR"][kind], e)); } }
           self.trace.push(Item::Send { evs: seen, t_out: self.now() });
+          // C20's sweep (fault kinds 4-7): a failed write after which send reports success although the
+          // device did not get the batch is a failure the loop was never told about
+          if hidden && self.syswrite_fault.map(|f| f.2 >= 4).unwrap_or(false) { self.hw_failed = true; self.trace.push(Item::Fail { what: "send (a write(2) failure was hidden: send reported success, the device did not get the batch)" }); }
           Ok(())
         }
         Err(e) => {
